@@ -38,6 +38,7 @@ def val(v):
 
 def op(o):
     h = o[0]
+    if any(isinstance(x, str) and x.isdigit() and int(x) > 3000 for x in o[1:3]): raise Skip("large binding power")
     if h == "PInfix": return f"(PInfix {b(o[1])} {int(o[2])} {g(o[3])} {int(o[4])})"
     if h in ("PPrefix", "PPostfix"): return f"({h} {int(o[1])} {g(o[2])} {int(o[3])})"
     raise Skip(str(o))
